@@ -101,10 +101,10 @@ def inject(model, site, rng):
                     x["args"][k] = [c["result"] if e == old else e for e in v]
     elif kind == "missing-param":
         del c["args"][p]
-        exp.update(error="MissingParameters", where="cmd", attrs={"parameters": [p]})
+        exp.update(error="MissingParameters", where="cmd", attrs={"parameters": [p], "command": c["cmd"]})
     elif kind == "undeclared-param":
         c["args"][p] = 1
-        exp.update(error="NoSuchParameter", where="arg", attrs={"parameter": p})
+        exp.update(error="NoSuchParameter", where="arg", attrs={"parameter": p, "command": c["cmd"]})
     elif kind == "miscased-required-param":
         # the required parameter is given under a name of other capitalisation: it is missing (and the other name undeclared)
         newname = p.lower() if p.lower() != p else p.upper()
